@@ -1196,7 +1196,147 @@ def c16(tier):
                       assumptions=["empty entries are exempt from the MAC claim (as the property says)", "quick samples the bit flips; thorough enumerates them"])
 
 
-CHECKS = {"C04": c04, "C15": c15, "C16": c16, "C09": c09, "C19": c19, "C03": c03, "C13": c13, "C14": c14, "C01": c01, "C02": c02, "C12": c12, "C17": c17}
+def run_stream_scenarios(rep, wd, scenarios, label, neg_control=True):
+    progs = os.path.join(wd, label + "-scenarios.ndjson")
+    trace = os.path.join(wd, label + "-trace.ndjson")
+    vlib.write_ndjson(progs, scenarios)
+    vlib.run_harness(["sexec", progs, trace])
+    res = vlib.validate_segments("Trace_Stream.tla", "Trace_Stream.cfg", trace, wd, tag=label)
+    by_sc = {s["sc"]: {"sc": s["sc"], "hex": s["hex"] if len(s["hex"]) < 200000 else "(omitted)", "plan": s["plan"], "under": s.get("under")} for s in scenarios}
+    rep.add_tv(res, by_sc, label)
+    evs = vlib.read_ndjson(trace)
+    counts = rep.notes.setdefault("events_by_call", {})
+    for e in evs:
+        counts[e.get("ev", "?")] = counts.get(e.get("ev", "?"), 0) + 1
+    rep.notes["spec_counters"] = dict(vlib.LAST_STATS)
+    rep.evaluations += len(scenarios)
+    for s in scenarios:
+        rep.distinct.add(vlib.digest([s["hex"][:4000], s["plan"], s.get("under")]))
+    if not rep.samples and scenarios:
+        rep.samples.append({"scenario": scenarios[0]["sc"], "plan": scenarios[0]["plan"], "under": scenarios[0].get("under")})
+    rejected = {r["sc"] for r in res["rejections"]}
+    if neg_control:
+        for s in scenarios:
+            if s["sc"] in rejected:
+                continue
+            seg = [e for e in evs if e.get("sc") == s["sc"]]
+            nx = [i for i, e in enumerate(seg) if e.get("ev") == "SNext" and e.get("r") == "entry" and e.get("i") == 2]
+            if not nx:
+                continue
+
+            def mutate(es, k=nx[0]):
+                es[k]["at"] += 1
+                return "SNext[%d].at shifted by one in accepted scenario %s" % (k, s["sc"])
+
+            nc = vlib.corrupt_and_expect_reject("Trace_Stream.tla", "Trace_Stream.cfg", seg, wd, mutate, tag=label + "-neg")
+            if nc:
+                rep.neg_controls.append(nc)
+                if not nc["rejected"]:
+                    raise ToolTrouble("negative control did not fire: " + nc["mutation"])
+            break
+    return res
+
+
+def stream_plans(rnd, datas, nplans):
+    plans = []
+    for _ in range(nplans):
+        plan, pcrc = [], []
+        for d in datas:
+            if d is None:
+                w = rnd.choice([0, -1])
+            else:
+                n = len(d)
+                w = rnd.choice([0, 1, max(0, n // 2), max(0, n - 1), n, -1, n + 5])
+            plan.append(w)
+            pcrc.append(crc_hex(d[:w]) if d is not None and w >= 0 else ("00000000" if w == 0 else ""))
+        plans.append((plan, pcrc))
+    return plans
+
+
+def c10(tier):
+    import refzip
+    import io
+    import zipfile
+    rep = Report("C10", tier)
+    wd = vlib.workdir("C10", tier)
+    vlib.build_harness()
+    r = vlib.tlc_mc("ZipStream.tla", "MC_Stream.cfg", wd, timeout=600, tag="mc-stream")
+    rep.add_mc(r, "MC_Stream.cfg")
+    if r["error"]:
+        rep.spec_violation(r, "MC_Stream.cfg")
+    for bug, inv in (("no_drain", "OnRecordBoundary"), ("drain_one_short", "OnRecordBoundary"), ("meta_skipped", "VisitOrder")):
+        r = vlib.tlc_mc("ZipStream.tla", "MC_Stream_%s.cfg" % bug, wd, timeout=300, tag="mc-" + bug)
+        found = bool(r["error"]) and inv in r["error"]
+        rep.neg_controls.append({"spec_mutant": bug, "expected_violation": inv, "found": found})
+        if not found:
+            raise ToolTrouble("spec mutant %s not detected" % bug)
+    sd = vlib.seed()
+    rnd = random.Random(sd * 4447 + 10)
+    scs = []
+    # archives written by the crate (C01's generator without encryption), dumped and re-read here
+    g = gen_writer.Gen(sd * 13 + 10, tier)
+    dump = os.path.join(wd, "dump")
+    os.makedirs(dump, exist_ok=True)
+    na = 25 if tier == "quick" else 400
+    ws = []
+    for i in range(na):
+        s = g.valid_archive("w%04d" % i, nmax=5, enc_ok=(i % 6 == 5), end="Finish")
+        s["ops"] = [o for o in s["ops"]]
+        if len([o for o in s["ops"] if o["op"] in ("StartFile", "AddDir", "AddSymlink", "StartFileAligned", "StartFileExtra")]) == 0:
+            s["ops"].insert(1, {"op": "StartFile", "name": "only", "method": 8})
+        s["dump"] = dump
+        ws.append(s)
+    progs = os.path.join(wd, "w-programs.ndjson")
+    wtrace = os.path.join(wd, "w-trace.ndjson")
+    vlib.write_ndjson(progs, ws)
+    vlib.run_harness(["wexec", progs, wtrace])
+    for e in vlib.read_ndjson(wtrace):
+        if e.get("ev") != "Dumped":
+            continue
+        b = open(e["path"], "rb").read()
+        try:
+            zf = zipfile.ZipFile(io.BytesIO(b))
+            datas = []
+            for zi in zf.infolist():
+                try:
+                    datas.append(zf.read(zi) if not zi.filename == "" else None)
+                except Exception:  # noqa
+                    datas.append(None)
+        except Exception:  # noqa
+            continue
+        for pi, (plan, pcrc) in enumerate(stream_plans(rnd, datas, 3 if tier == "quick" else 12)):
+            scs.append({"sc": "%s-p%d" % (e["sc"], pi), "hex": b.hex(), "plan": plan, "pcrc": pcrc,
+                        "under": rnd.choice(SCHED_UNDER), "buf": rnd.choice([1, 3, 4096, 65536])})
+    # archives of the independent builder: ZIP64 local records, unsupported (encrypted / data-descriptor) entries in the middle
+    for i in range(20 if tier == "quick" else 300):
+        ents = []
+        for k in range(rnd.randint(1, 5)):
+            e = {"name": b"r%d-%d" % (i, k), "method": rnd.choice([0, 8, 12]), "data": gen_reader.payload(rnd), "lz64": rnd.random() < 0.3,
+                 "utf8": False, "date": rnd.randrange(65536), "time": rnd.randrange(65536), "fcomment": rnd.choice([b"", b"meta comment"]),
+                 "eattr": (rnd.choice([0o100644, 0o100755, 0o40755]) << 16)}
+            c = rnd.random()
+            if c < 0.12:
+                e["dd"] = "sig32"
+            elif c < 0.24:
+                e["enc"] = ("zc", b"pw")
+            ents.append(e)
+        b, v = refzip.build({"entries": ents, "comment": b"stream"})
+        datas = [e["data"] for e in v["entries"]]
+        for pi, (plan, pcrc) in enumerate(stream_plans(rnd, datas, 3 if tier == "quick" else 10)):
+            scs.append({"sc": "r%04d-p%d" % (i, pi), "hex": b.hex(), "plan": plan, "pcrc": pcrc, "under": rnd.choice(SCHED_UNDER),
+                        "buf": rnd.choice([1, 7, 4096])})
+    run_stream_scenarios(rep, wd, scs, "stream")
+    return rep.finish("model_checking",
+                      "ZipStream.tla: OnRecordBoundary/InsideEntry/EndAtDirectory/VisitOrder over all entry lists (<= 3 entries, sizes {0,1,4}) and all "
+                      "consumption histories, with the no_drain / drain_one_short / meta_skipped spec mutants detected; binding: archives written by the "
+                      "crate and by the independent builder (ZIP64 local records; encrypted and data-descriptor entries that must yield an error, not data) "
+                      "are walked with per-entry consumption plans from {0,1,half,all-1,all,to-EOF,more than all} over short-reading sources; the stream "
+                      "position at every header parse, each entry's name/sizes/method/time/CRC/content prefix (expected = ZipOpen!EntryView of the lexed "
+                      "layout, i.e. what the seekable reader must report) and the visitor's file and metadata callbacks are validated against the model",
+                      assumptions=["archives with at least one entry, no prefix/gaps (a front-to-back reader cannot skip junk)"])
+
+
+CHECKS = {"C10": c10, "C04": c04, "C15": c15, "C16": c16, "C09": c09, "C19": c19, "C03": c03, "C13": c13, "C14": c14, "C01": c01, "C02": c02, "C12": c12, "C17": c17}
 
 
 def setup():
